@@ -27,6 +27,10 @@ THEOREMS = {
             "copyFold_get_target", "copyFold_get_other", "argminFirst_spec"],
     "C14": ["fit_binarizer_once", "partialFit_binarizer_once", "binarize_spec", "binarize_noop_ctxBin", "np_binarize_once",
             "addArm_new_binarizer", "tree_binarizer_twice_counterexample"],
+    "C15": ["sim_distance_lookup", "slice_row", "sim_selection_eq_library", "sim_cache_correct", "sim_cache_fresh",
+            "shared_cache_counterexample", "radius_exact"],
+    "C16": ["split_partition", "random_split_partition", "batches_cover_once", "stats_additive", "min_le_mean_le_max",
+            "evaluator_count_total", "evaluator_ordered", "getStats_count_sum"],
     "C17": ["rejected_noop", "train_rejected_noop", "query_rejected_noop", "rejected_then_continue"],
     "C20": ["fit_perm", "partialFit_perm", "fitRec_perm", "rowsOf_perm", "shift_greedy", "shift_ucb", "shift_softmax_invariant",
             "addXty_scale", "gram_ignores_rewards", "listMax_shift"],
@@ -46,6 +50,8 @@ IMPORTS = {
     "C12": ["MabModel.Props.C12"],
     "C13": ["MabModel.Props.C13"],
     "C14": ["MabModel.Props.C14"],
+    "C15": ["MabModel.Props.C15"],
+    "C16": ["MabModel.Props.C16"],
     "C17": ["MabModel.Props.C17"],
     "C20": ["MabModel.Props.C20"],
 }
